@@ -367,14 +367,16 @@ VCLAUSE(nested_2d_3d, 60, 3000, 60000, "at least one axis has reversed limits, o
 	// separable integrand is the product of the same method's 1D integrals up to rounding
 	if(m == "Gauss-Legendre" || m == "Gauss-Legendre_2" || m == "Adaptive-Simpson")
 	{
-		long double prod = 1;
+		long double prod = 1, prodabs = 1;
 		for(int k = 0; k < nd; k++)
 		{
-			double i1 = 0;
-			VMUST_RETURN("Integrate (1D factor)", i1 = libphysica::Integrate([&](double x) { return fac(k, x); }, L0[k], H0[k], m, par));
+			double i1 = 0, i1abs = 0;
+			VMUST_RETURN("Integrate (1D factor)", i1 = libphysica::Integrate([&](double x) { return fac(k, x); }, L0[k], H0[k], m, par); i1abs = libphysica::Integrate([&](double x) { return std::fabs(fac(k, x)); }, L0[k], H0[k], m, par));
 			prod *= i1;
+			prodabs *= std::fabs(i1abs);
 		}
-		VCLOSE(c, "product_of_library_1d_integrals", v, (double) prod, (m == "Adaptive-Simpson" ? 1e-11 : 1e-12) * std::fabs((double) prod), (three ? "Integrate_3D" : "Integrate_2D") << " with " << m << " (parameter " << par << ") vs the product of the library's own 1D integrals with the same method and parameter");
+		// (rounding is relative to the sum of the magnitudes of the terms: a cubic factor may change sign and its integral cancel)
+		VCLOSE(c, "product_of_library_1d_integrals", v, (double) prod, (m == "Adaptive-Simpson" ? 1e-11 : 1e-12) * std::max(std::fabs((double) prod), (double) prodabs), (three ? "Integrate_3D" : "Integrate_2D") << " with " << m << " (parameter " << par << ") vs the product of the library's own 1D integrals with the same method and parameter");
 	}
 }
 
